@@ -1,6 +1,7 @@
 """C15 Queries are pure; only `ans` carries state between them.  DESIGN.md section 4, C15."""
 import re
 import cg
+import hirutil as H
 import facts
 from facts import AnchorLost, ap_str, ap_calls, hir_walk
 
@@ -401,6 +402,26 @@ def ans_lookup(chk, F):
         binops = [x["op"] for x in hir_walk(e["cond"]) if x.get("k") == "Binary"]
         ok = sorted(lits) == ["ANS", "_", "ans"] and len(ret) == 1 and fields == ["previous_result"] and \
             sorted(binops) == ["Eq", "Eq", "Eq", "Or", "Or"] and e.get("else") is None
+    if not ok:
+        # the same decision as a match on the name: `match name { "ans" | "ANS" | "_" => self.previous_result.clone(), _ => .. }`
+        lits = []
+        for m in hir_walk(body):
+            if m.get("k") != "Match" or m.get("src") != "Normal":
+                continue
+            arms_prev = [a for a in m["arms"] if any(x.get("k") == "Field" and x.get("name") == "previous_result" for x in hir_walk(a["body"]))]
+            if len(arms_prev) != 1 or arms_prev[0].get("guard") or m["arms"].index(arms_prev[0]) != 0:
+                continue
+            a = arms_prev[0]
+            pats = a["pat"]["alts"] if a["pat"]["pk"] == "or" else [a["pat"]]
+            lits = [p_["e"]["v"] for p_ in pats if p_["pk"] == "expr" and p_["e"].get("lit") == "str"]
+            scr = m["scrut"]
+            while scr.get("k") in ("Unary", "AddrOf", "DropTemps") and (scr.get("a") or scr.get("e")):
+                scr = scr.get("a") or scr.get("e")
+            ln = H.local_name(scr) if scr.get("k") == "Path" else None
+            fields = [x.get("name") for x in hir_walk(a["body"]) if x.get("k") == "Field"]
+            ok = len(lits) == len(pats) and sorted(lits) == ["ANS", "_", "ans"] and bool(ln) and ln[0] == "name" and fields == ["previous_result"]
+            e = m
+            break
     chk.decide(ok, "ans-lookup", "Context::lookup", "names", "%s:%d" % (fn.file, e["line"] if e else 0),
                "lookup returns previous_result for exactly ans / ANS / _ before consulting temporaries and the registry",
                "Context::lookup's first test is not `name in {ans, ANS, _} -> return previous_result` (literals %s)" % lits)
